@@ -83,9 +83,25 @@ def check_gauss(run, program, rule="F-LIT/gauss"):
     f = program.func("uxarray/grid/area.py:get_gauss_quadratureDG")
     p = f.params()[0]
     tabs = tables_by_branch(f, p)
+    if not tabs:
+        # the literal tables may live in a function of the module that this one calls with its order argument
+        from ..loader import FuncInfo
+        for n_ in ast.walk(f.node):
+            if isinstance(n_, ast.Call) and any(isinstance(a, ast.Name) and a.id == p for a in n_.args):
+                t_ = program.resolve_expr(f.module, n_.func, f)
+                if isinstance(t_, FuncInfo) and t_.module is f.module:
+                    i_ = [i for i, a in enumerate(n_.args) if isinstance(a, ast.Name) and a.id == p][0]
+                    hp = t_.params()
+                    if i_ < len(hp):
+                        tabs = tables_by_branch(t_, hp[i_])
+                        if tabs:
+                            f_tables = t_
+                            break
+    f_tables = locals().get("f_tables", f)
     worst = Fraction(0)
     for n, (t, st) in sorted(tabs.items()):
         c = f"get_gauss_quadratureDG[{n}]"
+        f = f_tables
         if "dG" not in t or "dW" not in t or t["dG"][0] is None or t["dW"][0] is None:
             run.incomplete(rule, c, where(f, st), "dG/dW literal tables not found in this branch")
             continue
@@ -116,13 +132,15 @@ def check_gauss(run, program, rule="F-LIT/gauss"):
             run.holds(rule, c, where(f, st), f"{n} nodes/weights: positive, sum 2, moments exact to degree {max(2*n-3,1)} within 1e-12")
     want = set(range(1, 11))
     have = set(tabs)
-    for n in sorted(want - have):
+    if not have:
+        run.incomplete(rule + "-orders", "get_gauss_quadratureDG:orders", where(f), "no literal Gauss tables found in the function or in a module function it calls with the order")
+    for n in sorted(want - have) if have else []:
         run.violation(rule + "-orders", f"get_gauss_quadratureDG:order:{n}", where(f), f"documented order {n} has no table")
     if want <= have:
         run.holds(rule + "-orders", "get_gauss_quadratureDG:orders", where(f), "orders 1..10 present")
     run.stats["gauss_worst_residual"] = float(worst)
     # affine rescale [-1,1] -> [0,1], weights halved
-    check_rescale(run, f, rule + "-rescale")
+    check_rescale(run, program.func("uxarray/grid/area.py:get_gauss_quadratureDG"), rule + "-rescale")
     return len(tabs)
 
 
@@ -163,9 +181,34 @@ def check_rescale(run, f, rule):
             env[st.targets[0].id] = Fraction(st.value.value)
         if isinstance(st, ast.For):
             loop = st
+    # numeric constants of the module and simple local products/differences of constants are folded too
+    for st in f.module.tree.body:
+        if isinstance(st, ast.Assign) and len(st.targets) == 1 and isinstance(st.targets[0], ast.Name) and isinstance(st.value, ast.Constant) and isinstance(st.value.value, (int, float)) and not isinstance(st.value.value, bool):
+            env.setdefault(st.targets[0].id, Fraction(st.value.value))
+    for st in f.node.body:
+        if isinstance(st, ast.Assign) and len(st.targets) == 1 and isinstance(st.targets[0], ast.Name) and st.targets[0].id not in env:
+            try:
+                a_, b_ = _affine(st.value, env, lambda n: False)
+                if a_ == 0:
+                    env[st.targets[0].id] = b_
+            except (ValueError, KeyError):
+                pass
+    vectorised = False
     if loop is None:
-        run.incomplete(rule, "get_gauss_quadratureDG:rescale", where(f), "rescaling loop not found")
-        return
+        # whole-array form:  dG[0, :] = a * dG[0, :] + b ;  dW[:] = c * dW[:]   (every point at once)
+        body = [st for st in f.node.body if isinstance(st, ast.Assign) and len(st.targets) == 1 and isinstance(st.targets[0], ast.Subscript)
+                and all(isinstance(x, ast.Slice) and x.lower is None and x.upper is None or isinstance(x, ast.Constant) for x in (st.targets[0].slice.elts if isinstance(st.targets[0].slice, ast.Tuple) else [st.targets[0].slice]))]
+        if not body:
+            run.incomplete(rule, "get_gauss_quadratureDG:rescale", where(f), "rescaling loop not found")
+            return
+        vectorised = True
+
+        class _L:
+            pass
+        loop = _L()
+        loop.body = body
+        loop.iter = None
+        loop.lineno = body[0].lineno
     got = {}
     for st in loop.body:
         if isinstance(st, ast.Assign) and len(st.targets) == 1 and isinstance(st.targets[0], ast.Subscript):
@@ -182,7 +225,7 @@ def check_rescale(run, f, rule):
     for nm, want, what in (("dG", (Fraction(1, 2), Fraction(1, 2)), "nodes mapped by g -> (g+1)/2"), ("dW", (Fraction(1, 2), Fraction(0)), "weights halved")):
         c = f"get_gauss_quadratureDG:rescale:{nm}"
         if nm not in got:
-            run.violation(rule, c, where(f, loop), f"{nm} is not rescaled from [-1,1] to [0,1]")
+            run.violation(rule, c, where(f, loop.body[0]) if vectorised else where(f, loop), f"{nm} is not rescaled from [-1,1] to [0,1]")
         elif got[nm][0] == want:
             run.holds(rule, c, where(f, got[nm][1]), what)
         else:
@@ -191,6 +234,9 @@ def check_rescale(run, f, rule):
     # the loop runs over all points
     it = loop.iter
     c = "get_gauss_quadratureDG:rescale:range"
+    if vectorised:
+        run.holds(rule, c, where(f, loop.body[0]), "whole-array assignments: all points are rescaled")
+        return
     if isinstance(it, ast.Call) and isinstance(it.func, ast.Name) and it.func.id == "range" and len(it.args) == 1 and isinstance(it.args[0], ast.Name) and it.args[0].id == f.params()[0]:
         run.holds(rule, c, where(f, loop), "all nCount points are rescaled")
     else:
